@@ -179,6 +179,18 @@ Definition prog_ok (x : option (list Qc)) (y : list Qc) (e : option exn) (steps 
                 c["y"] = c["y"][:len(c["x"])]
                 c["int_x"] = True
             cases.append(c)
+        if not self.exhaustive_domain:
+            # aliasing probes: every operation as the FIRST writer of a Weaver built from the caller's float arrays, directly and
+            # after operations that leave y (resp. x) untouched — the moment at which an in-place write would reach caller data
+            keep_y = ["shift_x", "scale_x", "normalize_x", "truncate_by_index"]
+            keep_x = ["shift_y", "scale_y", "normalize_y"]
+            for name in [p for p in pool if p != "restore"]:
+                for pre in ([], [rng.choice(keep_y)], [rng.choice(keep_x)], [rng.choice(keep_y), rng.choice(keep_y)]):
+                    pre = [p for p in pre if p in pool]
+                    m = rng.randint(5, 9)
+                    cases.append({"x": gens.sorted_x(rng, m), "y": gens.values(rng, m), "seed": rng.randrange(1 << 30),
+                                  "len": len(pre) + 1, "first_ops": pre + [name], "pool": pool, "as_list": False, "int_x": False,
+                                  "x_none": False, "invalid": self.invalid})
         if self.queries or self.invalid:
             # zero as a bound (falsy in Python): on a series straddling 0, and as a value that is not a sample
             zx = [-3.0, -2.0, -1.0, 0.0, 1.0, 2.0, 3.0]
@@ -334,7 +346,7 @@ Definition prog_ok (x : option (list Qc)) (y : list Qc) (e : option exn) (steps 
         n = len(x)
         kind = rng.choice(["n_below_2", "rule_t", "rule_r", "strategy", "method", "fixed_not_in_x", "fixed_too_many", "trunc_inverted",
                            "trunc_inverted_ratio", "index_start", "index_stop", "slice_start", "slice_stop", "slice_value_absent",
-                           "grid_ends", "interp_none"])
+                           "grid_ends", "grid_ends_permuted", "interp_none"])
         mid = float((x[0] + x[1]) / 2) if n >= 2 else 0.5
         d = {"n_below_2": {"op": "recreate", "n": rng.choice([1, 0, -3]), "strategy": rng.choice(["pc", "linfixed", "linadapt", "expfixed", "expadapt", "cubic"]),
                            "alpha": 1.0, "a": None, "beta": 0.5, "exp": 2.0, "smooth": 1.0},
@@ -353,6 +365,10 @@ Definition prog_ok (x : option (list Qc)) (y : list Qc) (e : option exn) (steps 
              "slice_value_absent": {"op": "slice_by_value", "start": mid if rng.random() < 0.5 else None, "stop": None if rng.random() < 0.5 else float(x[-1]) + 1.0, "step": 1},
              "grid_ends": {"op": "interpolate", "new_x": [float(x[0]), mid, float(x[-1]) + 0.5] if rng.random() < 0.5 else [float(x[0]) - 0.5, mid, float(x[-1])],
                            "as_list": rng.random() < 0.5, "method": "linear"},
+             # the same set of values as a valid grid, but the first / last ELEMENT is not the first / last abscissa
+             "grid_ends_permuted": {"op": "interpolate", "new_x": rng.choice([[float(x[0]), float(x[-1]), mid], [mid, float(x[0]), float(x[-1])],
+                                                                               [float(x[-1]), mid, float(x[0])]]),
+                                    "as_list": rng.random() < 0.5, "method": rng.choice(["linear", "constant"])},
              "interp_none": {"op": "interpolate", "method": "linear"},
              }[kind]
         if kind == "slice_value_absent" and d["start"] is None and d["stop"] is None:
@@ -452,7 +468,8 @@ Definition prog_ok (x : option (list Qc)) (y : list Qc) (e : option exn) (steps 
                     o = None
                     for _ in range(5):
                         pool = c["pool"] + (QUERY_OPS if self.queries else [])
-                        o = self.choose(rng, w, rng.choice(pool))
+                        names = c.get("first_ops") or []
+                        o = self.choose(rng, w, names[k] if k < len(names) else rng.choice(pool))
                         if o is not None:
                             break
                     if o is None:
